@@ -52,6 +52,10 @@ func (u *Unit) logArr(st *State, field string, vs *Sort) *Term {
 func (u *Unit) logAppend(st *State, verb string, obj, namespaced, ns *Term, typ *Term) {
 	c := u.c
 	n := u.logLen(st)
+	for _, f := range []string{"sent", "kns", "kname"} {
+		// keep these arrays materialised so that a later havoc preserves their prefix
+		u.logArr(st, f, logFieldSort(f))
+	}
 	st.heap["G:typ"] = c.Store(u.logArr(st, "typ", SInt), n, typ)
 	st.heap["G:verb"] = c.Store(u.logArr(st, "verb", SStr), n, c.Str(verb))
 	st.heap["G:obj"] = c.Store(u.logArr(st, "obj", SRef), n, obj)
@@ -70,7 +74,7 @@ func (u *Unit) logHavoc(st *State, guard *Term) {
 	for _, f := range []struct {
 		name string
 		s    *Sort
-	}{{"verb", SStr}, {"obj", SRef}, {"nsd", SBool}, {"ns", SStr}, {"typ", SInt}} {
+	}{{"verb", SStr}, {"obj", SRef}, {"nsd", SBool}, {"ns", SStr}, {"typ", SInt}, {"sent", SRef}, {"kns", SStr}, {"kname", SStr}} {
 		prev := u.logArr(st, f.name, f.s)
 		na := c.Fresh("G_"+f.name, prev.Sort)
 		k := c.BoundVar("lk", SInt)
@@ -114,6 +118,29 @@ func (u *Unit) clientCall(fc *frameCtx, name string, sig *types.Signature, args 
 	}
 	ftT, _ := u.ifaceFns()
 	u.logAppend(st, verb, obj, namespaced, ns, c.App(ftT, args[objIdx].T))
+	n0 := c.Sub(u.logLen(st), c.Int(1))
+	if verb == "Get" && len(args[2].F) == 2 {
+		// the ObjectKey{Namespace, Name} asked for
+		st.heap["G:kns"] = c.Store(u.logArr(st, "kns", SStr), n0, args[2].F[0].T)
+		st.heap["G:kname"] = c.Store(u.logArr(st, "kname", SStr), n0, args[2].F[1].T)
+	}
+	if u.wantsSent && verb != "Get" && verb != "List" && verb != "DeleteAllOf" {
+		// ghost snapshot of the object as sent: a field-by-field (shallow) copy taken before the answer overwrites
+		// the metadata; maps and slices reachable from it are shared with the original
+		if stt := u.ifaceStatic[args[objIdx].T.id]; stt != nil {
+			if pt, ok := stt.Underlying().(*types.Pointer); ok {
+				snap := u.allocObj(st)
+				var sl, dl []leafLoc
+				u.leafAddrs(obj, pt.Elem(), &sl)
+				u.leafAddrs(snap, pt.Elem(), &dl)
+				for i := range sl {
+					a := u.heapArr(st, sl[i].Sort)
+					st.heap[heapKey(sl[i].Sort)] = c.Store(a, dl[i].Addr, u.readThrough(a, sl[i].Addr, pc))
+				}
+				st.heap["G:sent"] = c.Store(u.logArr(st, "sent", SRef), n0, snap)
+			}
+		}
+	}
 	// Reads (re)fill the whole object passed in. Writes send the object; what comes back differs from what was
 	// sent only in the object's metadata (resourceVersion, generation, uid, timestamps ...): spec and status of the
 	// object in memory stay what the caller put there. (On an error the object is left as it was.)
@@ -121,7 +148,22 @@ func (u *Unit) clientCall(fc *frameCtx, name string, sig *types.Signature, args 
 	case "Get", "List":
 		fr := &FrameSpec{Roots: []*Term{c.Root(obj)}}
 		u.checkCalleeFrame(fc, pc, fr, name, pos)
+		before := st.alloc
 		u.havoc(st, pc, fr)
+		// Assumed: the decoder builds a tree of newly allocated objects. Every reference held by the object read into, or
+		// by an object allocated during the call, is nil or refers to an object allocated during the call. Only assumed
+		// when the object passed was allocated by the function under verification itself (every call site in the
+		// repository passes a newly allocated empty object; decoding into a used object could keep its maps).
+		u.usedTrusted["assumed: objects filled by client Get/List hold only references allocated by that call"] = true
+		after := st.alloc
+		inNew := func(x *Term) *Term { return c.And(c.Le(before, c.Root(x)), c.Lt(c.Root(x), after)) }
+		a := c.BoundVar("fa", SRef)
+		region := c.Or(c.Eq(c.Root(a), c.Root(obj)), inNew(a))
+		pc := c.And(pc, c.Ge(c.Root(obj), u.alloc0))
+		rsel := c.mk("select", "", SRef, u.heapArr(st, SRef), a)
+		u.assume(pc, c.Forall([]*Term{a}, c.Implies(region, c.Or(c.Eq(rsel, c.Nil()), inNew(rsel))), []*Term{rsel}))
+		ssel := c.mk("select", "", SSlice, u.heapArr(st, SSlice), a)
+		u.assume(pc, c.Forall([]*Term{a}, c.Implies(region, c.Or(c.Eq(c.SArr(ssel), c.Nil()), inNew(c.SArr(ssel)))), []*Term{ssel}))
 	case "Create", "Update", "Patch", "StatusUpdate", "StatusPatch":
 		fr := &FrameSpec{Roots: []*Term{c.Root(obj)}}
 		if stt := u.ifaceStatic[args[objIdx].T.id]; stt != nil {
@@ -208,8 +250,10 @@ func logFieldSort(f string) *Sort {
 	switch f {
 	case "verb", "ns":
 		return SStr
-	case "obj":
+	case "obj", "sent":
 		return SRef
+	case "kns", "kname":
+		return SStr
 	case "typ":
 		return SInt
 	}
